@@ -578,6 +578,32 @@ pub fn apply<E: Env>(me: u8, op: &Op, slots: &mut Slots, env: &mut E) -> bool {
                 }
             }
         }
+        Op::ZonedSweep { a } => {
+            let Some(x) = slots[ix(*a)].as_ref() else { return false };
+            let Val::Zoned(ref p) = x.val else { return false };
+            let units = [Unit::Year, Unit::Month, Unit::Week, Unit::Day, Unit::Hour];
+            let mut panics = 0;
+            for t in 0..N_INSTANTS {
+                // The temporary owns its own handle; it is gone again at the
+                // end of each iteration, so the handle count is unchanged.
+                let q = instant(t).to_zoned(p.time_zone().clone());
+                for u in units {
+                    if quietly(|| {
+                        let _ = p.until((u, &q));
+                        let _ = q.until((u, p));
+                        let _ = p.since((u, &q));
+                    })
+                    .is_none()
+                    {
+                        panics += 1;
+                    }
+                }
+                drop(q);
+            }
+            for _ in 0..panics {
+                env.api_panic("zoned_sweep");
+            }
+        }
         Op::TzMake { src, dst, which, t } => {
             let Some(x) = slots[ix(*src)].as_ref() else { return false };
             let tz = x.val.tz();
